@@ -13,7 +13,8 @@ Inductive exn :=
 | ExEvaluatorGone       (* std::runtime_error "ConnectionEvaluator is no longer alive" *)
 | ExBadScript           (* the script names an object that does not exist: harness error, not library behaviour *)
 | ExUB                  (* the script does something the library documents as undefined *)
-| ExOutOfFuel.          (* model recursion bound hit: never a normal-looking value *)
+| ExOutOfFuel           (* model recursion bound hit: never a normal-looking value *)
+| ExWrap.               (* an Impl issued 2^gen_bits - 1 ids: the next generation could wrap; the model stops here *)
 
 Inductive ckind :=
 | KPlain                       (* connect(std::function) / connect(Func, bound...) via bind_first *)
@@ -42,23 +43,38 @@ Record impl := {
   i_emitting : bool;      (* m_isEmitting *)
   i_dde : bool;           (* m_disconnectedDuringEmit *)
   i_owned : bool;         (* some Signal's m_impl points here *)
-  i_alive : bool }.       (* at least one shared_ptr owner exists (a Signal, or an emission in progress) *)
+  i_alive : bool;         (* at least one shared_ptr owner exists (a Signal, or an emission in progress) *)
+  i_issued : list gidx }. (* GHOST: every id this Impl ever issued, newest first; no counterpart in the code *)
 
 Definition impl_with_conns (m : impl) (g : garray conn) : impl :=
-  {| i_conns := g; i_emitting := i_emitting m; i_dde := i_dde m; i_owned := i_owned m; i_alive := i_alive m |}.
+  {| i_conns := g; i_emitting := i_emitting m; i_dde := i_dde m; i_owned := i_owned m; i_alive := i_alive m;
+     i_issued := i_issued m |}.
+Definition impl_with_flags (m : impl) (emitting dde : bool) : impl :=
+  {| i_conns := i_conns m; i_emitting := emitting; i_dde := dde; i_owned := i_owned m; i_alive := i_alive m;
+     i_issued := i_issued m |}.
+Definition impl_with_owner (m : impl) (owned alive : bool) : impl :=
+  {| i_conns := i_conns m; i_emitting := i_emitting m; i_dde := i_dde m; i_owned := owned; i_alive := alive;
+     i_issued := i_issued m |}.
+Definition impl_issue (m : impl) (g : garray conn) (k : gidx) : impl :=
+  {| i_conns := g; i_emitting := i_emitting m; i_dde := i_dde m; i_owned := i_owned m; i_alive := i_alive m;
+     i_issued := k :: i_issued m |}.
 Definition impl_new : impl :=
-  {| i_conns := g_empty; i_emitting := false; i_dde := false; i_owned := true; i_alive := true |}.
+  {| i_conns := g_empty; i_emitting := false; i_dde := false; i_owned := true; i_alive := true; i_issued := [] |}.
 
 Record handle := { h_impl : option nat; h_id : option gidx }.
 Definition handle_default : handle := {| h_impl := None; h_id := None |}.
 (* what a moved-from ConnectionHandle looks like: the weak_ptr is emptied, the optional id stays *)
 Definition handle_moved_from (h : handle) : handle := {| h_impl := None; h_id := h_id h |}.
 
+Definition handle_src (h : handle) : option (nat * gidx) :=
+  match h_impl h, h_id h with Some i, Some k => Some (i, k) | _, _ => None end.
+
 Record invocation := { v_label : nat; v_args : list Z; v_script : nat }.
 Record evst := { e_alive : bool; e_queue : list (handle * invocation); e_evaluating : bool }.
 
 Inductive event :=
-| EvSlot (label : nat) (args : list Z)      (* a user callable ran with these values *)
+| EvSlot (src : option (nat * gidx)) (label : nat) (args : list Z)
+      (* a user callable ran with these values; src is GHOST: the (Impl, id) of the connection it belongs to *)
 | EvAdded (ev : nat)                        (* ConnectionEvaluator::onInvocationAdded hook *)
 | EvBool (b : bool)                         (* value returned by a query / block call *)
 | EvDone (r : option exn).                  (* a top-level operation finished *)
@@ -186,8 +202,7 @@ Definition impl_disconnect (w : world) (i : nat) (k : gidx) : world :=
       match g_get (i_conns m) k with
       | Some c =>
           if i_emitting m then
-            put_impl w i {| i_conns := g_update (i_conns m) k (conn_set_tbd c); i_emitting := true;
-                            i_dde := true; i_owned := i_owned m; i_alive := i_alive m |}
+            put_impl w i (impl_with_flags (impl_with_conns m (g_update (i_conns m) k (conn_set_tbd c))) true true)
           else
             let w1 := match c_kind c with
                       | KDeferred e => if ev_alive w e
@@ -223,8 +238,7 @@ Definition impl_disconnect_all (w : world) (i : nat) : world :=
 (* a Signal lets go of its Impl (m_impl.reset()): the Impl dies unless an emission still owns it *)
 Definition release_owner (w : world) (i : nat) : world :=
   match get_impl w i with
-  | Some m => put_impl w i {| i_conns := i_conns m; i_emitting := i_emitting m; i_dde := i_dde m;
-                              i_owned := false; i_alive := i_emitting m |}
+  | Some m => put_impl w i (impl_with_owner m false (i_emitting m))
   | None => w
   end.
 
@@ -243,13 +257,11 @@ Definition finish_emit (w : world) (i : nat) (n : nat) : world :=
   match get_impl w i with
   | None => w
   | Some m =>
-      let w1 := put_impl w i {| i_conns := i_conns m; i_emitting := false; i_dde := false;
-                                i_owned := i_owned m; i_alive := i_alive m |} in
+      let w1 := put_impl w i (impl_with_flags m false false) in
       let w2 := if i_dde m then disconnect_where c_tbd w1 i (seq 0 n) else w1 in
       match get_impl w2 i with
       | Some m2 => if i_owned m2 then w2
-                   else put_impl w2 i {| i_conns := i_conns m2; i_emitting := false; i_dde := i_dde m2;
-                                         i_owned := false; i_alive := false |}
+                   else put_impl w2 i (impl_with_owner m2 false false)
       | None => w2
       end
   end.
@@ -295,19 +307,19 @@ Section Exec.
     (* run the body of a slot: the same interpreter with one unit of depth fuel less *)
     Variable rec_script : world -> nat -> res.
 
-    Definition invoke_slot (w : world) (label : nat) (args : list Z) (sid : nat) : res :=
-      rec_script (log (EvSlot label args) w) sid.
+    Definition invoke_slot (w : world) (src : option (nat * gidx)) (label : nat) (args : list Z) (sid : nat) : res :=
+      rec_script (log (EvSlot src label args) w) sid.
 
     (* the call made by Impl::emit for one unblocked connection *)
     Definition fire (w : world) (i : nat) (k : gidx) (c : conn) (args : list Z) : res :=
       match c_kind c with
-      | KPlain => invoke_slot w (c_label c) (adapt (c_arity c) (c_bound c) args) (c_script c)
+      | KPlain => invoke_slot w (Some (i, k)) (c_label c) (adapt (c_arity c) (c_bound c) args) (c_script c)
       | KReflective v =>
           let w1 := set_handles w (bind_key (w_handles w) v {| h_impl := Some i; h_id := Some k |}) in
-          invoke_slot w1 (c_label c) args (c_script c)
+          invoke_slot w1 (Some (i, k)) (c_label c) args (c_script c)
       | KSingle =>
           let w1 := handle_disconnect w {| h_impl := Some i; h_id := Some k |} in
-          invoke_slot w1 (c_label c) args (c_script c)
+          invoke_slot w1 (Some (i, k)) (c_label c) args (c_script c)
       | KDeferred e =>
           if ev_alive w e
           then ok (ev_enqueue w e {| h_impl := Some i; h_id := Some k |}
@@ -350,8 +362,7 @@ Section Exec.
           | Some m =>
               if i_emitting m then throw w ExAlreadyEmitting else
               let n := g_size (i_conns m) in
-              let w1 := put_impl w i {| i_conns := i_conns m; i_emitting := true; i_dde := i_dde m;
-                                        i_owned := i_owned m; i_alive := i_alive m |} in
+              let w1 := put_impl w i (impl_with_flags m true (i_dde m)) in
               let '(w2, e) := walk w1 i args (seq 0 n) in
               (finish_emit w2 i n, e)
           end
@@ -367,8 +378,8 @@ Section Exec.
           | Some s =>
               match nth_error (e_queue s) pos with
               | None => ok w
-              | Some (_, v) =>
-                  match invoke_slot w (v_label v) (v_args v) (v_script v) with
+              | Some (h, v) =>
+                  match invoke_slot w (handle_src h) (v_label v) (v_args v) (v_script v) with
                   | (w', None) => pass_loop f w' e (S pos)
                   | (w', Some x) => (w', Some x)
                   end
@@ -415,8 +426,10 @@ Section Exec.
           | Some m =>
               (* connecting to a signal from one of its own slots is documented as undefined *)
               if i_emitting m then throw w ExUB else
+              (* the 32-bit generation counter wraps after 2^32 ids: outside every theorem (known finding KF-C12-wrap) *)
+              if negb (N.ltb (N.of_nat (length (i_issued m)) + 1) W) then throw w ExWrap else
               let '(g, k) := g_insert (i_conns m) c in
-              let w2 := put_impl w1 i (impl_with_conns m g) in
+              let w2 := put_impl w1 i (impl_issue m g k) in
               ok (set_handles w2 (bind_key (w_handles w2) h {| h_impl := Some i; h_id := Some k |}))
           end
       end.
@@ -585,7 +598,11 @@ Section Exec.
               ok (set_blockers w1 (remove_key (w_blockers w1) b))
           | None => ok w
           end
-      | OEvNew e => ok (set_evs w (bind_key (w_evs w) e {| e_alive := true; e_queue := []; e_evaluating := false |}))
+      | OEvNew e =>
+          match lookup (w_evs w) e with
+          | Some _ => throw w ExBadScript      (* evaluator names are never reused *)
+          | None => ok (set_evs w (bind_key (w_evs w) e {| e_alive := true; e_queue := []; e_evaluating := false |}))
+          end
       | OEvDrop e =>
           match lookup (w_evs w) e with
           | Some s => if e_evaluating s then throw w ExUB
